@@ -500,6 +500,14 @@ def binop(I, op: ast.operator, a: Any, b: Any, st: State) -> Any:
             n.appended = list(a.appended) + list(b.items)
             n.fresh = True
             return n
+        if isinstance(a, SymSeq) and isinstance(b, SymSeq) and not a.appended and not b.appended:
+            la = a.length
+            n = SymSeq(None, "obj" if "obj" in (a.kind, b.kind) else a.kind, f"({a.name}+{b.name})", a.length + b.length, None, lambda i, a=a, b=b, la=la: z3.If(i < la, a.at(i), b.at(i - la)) if V.is_z3(a.at(i)) and V.is_z3(b.at(i - la)) else Opaque("concat.elem"))
+            if n.kind != "obj":
+                n.kind = "obj"
+            n.concat_of = (a, b)
+            n.fresh = True
+            return n
     if isinstance(op, (ast.Sub, ast.Mult, ast.FloorDiv, ast.Mod)) and is_intish(a) and is_intish(b):
         if isinstance(op, ast.Sub):
             return a - b
